@@ -63,10 +63,10 @@ CHECKS = {
         "accessors; TLC checks RoundTrip for a target row ranging over the whole value lattice (key vs headword, forms equal/different, dictionary form */self/other, "
         "empty/non-empty arrays, string lengths across the 1-byte/2-byte length-prefix boundary); every enumerated lexicon is compiled by the real DictBuilder twice with a fixed "
         "timestamp (byte equality), loaded aligned and at an odd address, and every word read back and compared with TLC's expected values; generated lexicons (126..300 UTF-16 unit "
-        "strings, astral characters, \\u escapes, 0/127-item arrays, numeric and inline references, extreme parameters) with random non-square matrices are trace-validated, incl. every matrix cell. BuildFrontEnds.tla: `sudachi build/ubuild` and sudachipy.build_system_dic/build_user_dic have the library's outcome and write a byte-identical body with the given description (real runs on generated sources incl. refused ones).",
+        "strings, astral characters, \\u escapes, 0/127-item arrays, numeric and inline references, extreme parameters) with random non-square matrices are trace-validated, incl. every matrix cell. BuildFrontEnds.tla: `sudachi build/ubuild` and sudachipy.build_system_dic/build_user_dic have the library's outcome and write a byte-identical body with the given description (real runs on generated sources incl. refused ones). DumpFrontEnd.tla: `sudachi dump DICT pos|matrix|winfo` is the textual rendering of the library's read-back of the same file (drift level, not gating).",
    note="Trusted: TLC, JSON bridge, the CSV rendering of the drivers. Byte layout is not compared (only read-back observables). Inline references judged only where key = headword. "
         "Dictionaries without the synonym section are covered on the model only.",
-   technique="TLA+ spec DictRecord (RoundTrip) + TLC; S->I replay through real compile/load/read-back; I->S trace validation (Trace_DictRecord); front ends of the compiler validated against the library (Trace_BuildFrontEnds)",
+   technique="TLA+ spec DictRecord (RoundTrip) + TLC; S->I replay through real compile/load/read-back; I->S trace validation (Trace_DictRecord); front ends of the compiler and the dump subcommand validated against the library (Trace_BuildFrontEnds, Trace_DumpFrontEnd)",
    design="4 C05"),
  "C11": dict(
    category="model_checking",
@@ -84,7 +84,7 @@ CHECKS = {
    text="DictBuild.tla gives the compiler's outcome algebra ({ok, err}; a sink failure forces err; ok forces read-back validity: ids of indexed entries inside the matrix "
         "by use, every dictionary-form/split/word-structure reference existing, arrays <= 127 and strings <= 32767, and successful load + analyses). TLC enumerates the fault space: "
         "11 lexicon-row fields and the matrix text each in their defect classes (missing, empty, non-numeric, -1, limit-1/limit/limit+1, overflow, bad escape, dangling/self/U references, "
-        "128-item arrays, wrong arity; empty file, blank lines, bad/negative header, cells at/beyond/negative coordinates, short lines, garbage), all singles and pairs (thorough: triples). "
+        "128-item arrays, wrong arity, malformed values wider than 32 bytes made of multi-byte characters in every numeric / reference / mode field and in matrix header, coordinates and cells; empty file, blank lines, bad/negative header, cells at/beyond/negative coordinates, short lines, garbage), all singles and pairs (thorough: triples). "
         "Each input is rendered to bytes and run through the real compiler under catch_unwind; successes are loaded, read back through the public reader and analysed in all modes with "
         "debug assertions; a sink failing after k bytes is tried for EVERY k of compiled dictionaries. TLC validates the recorded outcome trace.",
    note="Trusted: TLC, JSON bridge, the defect-class renderer. Validity is judged only on read-back + probes. Five genuine defects found here were repaired (known_findings.json, fixed); "
@@ -129,7 +129,7 @@ CHECKS = {
         "(invoke / group / length, several definitions per class), the simple fallback candidate to the next permissible word start, the regex provider for [set]+ (strict/relaxed boundary, "
         "max length, already-created lengths) and the provider loop of a position (skip at NOOOVBOW characters, re-invocation of the last provider). TLC checks structural invariants of runs "
         "(tiling, shared class, maximality, PrefixStable: appending text never re-cuts what precedes it) and that every position gets a candidate, for all class texts within bounds. Every "
-        "enumerated case is replayed on the real InputBuffer (run lengths, word-start flags) and the real providers through a generated char.def/unk.def; whole analyses with the shipped "
+        "enumerated case (incl. all 144 pairs of invoke/group/length settings for the two classes of a two- and a three-class letter) is replayed on the real InputBuffer (run lengths, word-start flags) and the real providers through a generated char.def/unk.def; whole analyses with the shipped "
         "definitions are trace-validated: tables, every provider invocation's node set, completeness of a position, and OOV morphemes (is_oov, dictionary -1, POS, forms = normalised slice).",
    note="Trusted: TLC, JSON bridge; class sets come from CharacterCategory (C17). Candidates compared as sets. Regex provider only for [set]+. A genuine defect found here was repaired (known_findings.json, fixed).",
    technique="TLA+ spec Oov + TLC; S->I replay on real InputBuffer/providers; I->S trace validation via hooks H2/H4 (Trace_Oov)",
@@ -201,7 +201,7 @@ CHECKS = {
         "composition of kept, shrinking (3->1 byte) and expanding (3->33 bytes, U+FDFA) characters that sits one below, on and one above either limit; each is analysed by the real tokenizer in four "
         "block orders and the event (outcome, reported lengths, coverage of the text, a call of every morpheme accessor and the split API in all modes) is validated by TLC, together with "
         "~20k (thorough: ~3.4M) recorded analyses of hostile inputs: a sweep over the Unicode scalars, NUL/control/unassigned/astral/ZWJ/combining mixtures, repeated units around 49,149 bytes, "
-        "cost-extreme and random generated dictionaries, short histories on one tokenizer with a reused result list (empty inputs after non-empty ones). Built with debug assertions and overflow checks.",
+        "cost-extreme and random generated dictionaries, short histories on one tokenizer with a reused result list (empty inputs after non-empty ones), and 42 (thorough: 216) worlds with generated character / unknown-word definitions (letters of one, two and three classes, every class with its own invoke/group/length setting) on every text of <= 3 (4) letters. Built with debug assertions and overflow checks.",
    note="Not exhaustive: inputs are sampled (every scalar alone/doubled in the thorough tier) and configurations are 7 fixture stacks + generated dictionaries. Out-of-bounds reads are seen only "
         "through the debug assertions guarding the unchecked indexing; no sanitizer. Two genuine defects are recorded as known findings (i32 path-cost overflow at cost extremes; "
         "get_internal_cost over split pieces), two were repaired (intermediate-length refusal; NUL byte continuing a lexicon match).",
@@ -215,10 +215,10 @@ CHECKS = {
         "history of <= 3 (thorough 4) calls; every such history is executed on the REAL extension (rebuilt from /repo) with real texts, together with seeded random sessions over 3 configurations, "
         "field subsets and the 7 projections; after every call all live lists, handles and tokenizer modes are observed and the trace (library results recorded from the Rust core by `vh c19-lib`) "
         "is validated by TLC, including text[begin:end] = raw surface in code points. Cli.tla specifies the command-line tool as a line-by-line stream processor (terminator stripping, sentence "
-        "splitting, column / -a / -w formats); TLC checks the line discipline for every input <= 4 (6) over {x, CR, LF}, every such input and random multi-line files are fed to the real binary and "
+        "splitting yes/no/only, column / -a / -w formats, standard streams or file argument and -o); TLC checks the line discipline for every input <= 4 (6) over {x, CR, LF}, every such input and random multi-line files are fed to the real binary and "
         "stdout must equal Run(input) computed by TLC from the library's own sentences and morphemes. BindingsPos.tla adds POS matchers (patterns, predicates, | & - ~, verdicts on every live morpheme) and the HuggingFace pre-tokenizer (through a stand-in module); ConfigResolve.tla specifies how -r/-p/-l assemble a configuration and resolve resource names, and all 4608 scenarios TLC enumerates are set up on disk for the real Config.",
    note="Trusted: TLC, JSON bridge, the Python driver's reading of accessors, `vh c19-lib` (the core library asked with the same field request). Not covered: the HuggingFace pre-tokenizer "
-        "(see C18), Dictionary construction options, the sudachipy command line wrapper, --split-sentences=only, lines longer than the input limit (the tool aborts). Three genuine defects "
+        "(see C18), Dictionary construction options, the sudachipy command line wrapper, the -d debug dump, lines longer than the input limit (the tool aborts). Three genuine defects "
         "found here were repaired (blank-line terminator, copy_slice input, NUL in lookups).",
    technique="TLA+ specs Bindings and Cli + TLC over all short call histories / terminator patterns; S->I execution of every enumerated history on the real extension and binary; I->S trace validation "
              "(Trace_Bindings, Trace_Cli) against results recorded from the Rust core; POS matchers, pre-tokenizer and configuration resolution (S->I of 4608 scenarios)",
